@@ -37,3 +37,74 @@ Proof. exact cl_facts. Qed.
    factor 2 (the leaf splits) and the theorem's conclusion is obtained for it *)
 From BB Require Proofs.Compose.
 Example C07_nonvacuous_instance := Compose.C07Demo.C07_nonvacuous.
+
+(* ---- the rebuild path and caller labels (Proofs/SpecRebuild.v) ----
+   spec_fit_lists folds the reference insertion over whole member lists.  _fit_buffers (fit_groups: one
+   dtype group after the other), fits with caller-supplied labels, one re-clustering pass and the whole
+   re-clustering loop (reported clusters, shuffled if asked, grouped by counter width in first-appearance
+   order, re-inserted as units into the empty tree under the new threshold) and refinement (kept clusters
+   grouped first, the members of the n largest appended as singletons to the uint8 group) all refine the
+   reference procedure: same tree of member lists, same reported clusters. *)
+From BB Require Import Proofs.BirchRebuild Proofs.BirchLabels Proofs.SpecRebuild.
+Theorem C07_fit_groups_refines : forall fexp D nf gs,
+  forall st,
+  st_inv st -> released st = false -> init_for nf st -> Z.of_nat nf < 2 ^ 52 ->
+  groups_ok nf gs -> nfit st + tot_n (gsubs gs) < 2 ^ 64 ->
+  leaves_data D st -> Forall (data_ok D nf) (gsubs gs) ->
+  let st' := fst (fit_groups fexp st gs) in
+  snd (fit_groups fexp st gs) = Ok /\ st_inv st' /\ leaves_data D st' /\
+  released st' = false /\ init_for nf st' /\ cfg st' = cfg st /\
+  nfit st' = nfit st + tot_n (gsubs gs) /\
+  abs_st st' =
+  spec_fit_lists_opt fexp D nf (c_crit (cfg st)) (c_thr (cfg st)) (c_bf (cfg st))
+                     (abs_st st) (map sids (gsubs gs)) /\
+  clusters st' = spec_clusters_of (abs_st st').
+Proof. exact fit_groups_refines. Qed.
+Theorem C07_fit_labels_refines : forall fexp D st rows labels,
+  st_inv st -> nf_ok st -> released st = false -> op_wf_l st (OFit rows labels) ->
+  leaves_data D st ->
+  (forall k fp l, nth_error rows k = Some (Some fp) ->
+                  nth_error (fit_labels st rows labels) k = Some l -> D l = fp) ->
+  let st' := fst (do_fit fexp st rows labels) in
+  st_inv st' /\ leaves_data D st' /\
+  abs_st st' =
+  spec_fit fexp D (nfeat st') (c_crit (cfg st)) (c_thr (cfg st)) (c_bf (cfg st))
+           (abs_st st) rows (fit_labels st rows labels) /\
+  clusters st' = spec_clusters_of (abs_st st').
+Proof. exact fit_labels_refines. Qed.
+Theorem C07_recluster_iter_refines : forall fexp D st extra p,
+  st_inv st -> nf_ok st -> leaves_data D st ->
+  match p with Some p => is_perm_of_len (length (sorted_leaves st)) p | None => True end ->
+  let bfs := sorted_leaves st in
+  let bfs' := match p with Some p => permute bfs p | None => bfs end in
+  let st1 := set_thr (reset_st st) (c_thr (cfg st) + extra)%float in
+  let st2 := fst (fit_groups fexp st1 (prepare_groups bfs')) in
+  snd (fit_groups fexp st1 (prepare_groups bfs')) = Ok /\
+  st_inv st2 /\ nf_ok st2 /\ leaves_data D st2 /\
+  abs_st st2 =
+  spec_recluster_iter fexp D (nfeat st) (c_crit (cfg st)) (c_bf (cfg st))
+                      (c_thr (cfg st) + extra)%float (abs_st st) p /\
+  clusters st2 = spec_clusters_of (abs_st st2).
+Proof. exact recluster_iter_refines. Qed.
+Theorem C07_do_recluster_refines : forall fexp D st iters extra perms se,
+  st_inv st -> recluster_perms_ok fexp st iters extra perms se -> leaves_data D st ->
+  let st' := fst (do_recluster fexp st iters extra perms se) in
+  st_inv st' /\ leaves_data D st' /\
+  abs_st st' =
+  spec_recluster_loop fexp D (nfeat st) (c_crit (cfg st)) (c_bf (cfg st)) iters (abs_st st)
+                      (c_thr (cfg st)) extra perms se 0 /\
+  clusters st' = spec_clusters_of (abs_st st').
+Proof. exact do_recluster_refines. Qed.
+Theorem C07_refine_refines : forall fexp D st X im nl,
+  st_inv st -> op_wf st (ORefine X im nl) -> leaves_data D st ->
+  op_data D st (ORefine X im nl) ->
+  let st' := fst (do_refine fexp st X im nl) in
+  st_inv st' /\ leaves_data D st' /\
+  abs_st st' =
+  match snd (do_refine fexp st X im nl) with
+  | Ok => spec_fit_lists_opt fexp D (nfeat st) (c_crit (cfg st)) (c_thr (cfg st)) (c_bf (cfg st))
+                             None (spec_refine_order (spec_clusters_of (abs_st st)) nl)
+  | Err => abs_st st
+  end /\
+  clusters st' = spec_clusters_of (abs_st st').
+Proof. exact refine_refines. Qed.
